@@ -9,7 +9,7 @@
     first byte and does not leave that byte's unit (page / line).
     Memories and host buffers are total functions index -> byte; [h2d]/[d2h]
     apply the pieces in order exactly as the Go loops do. *)
-From Coq Require Import List NArith Bool Lia ZifyN ZifyNat ZifyBool.
+From Coq Require Import List NArith Bool Arith Lia ZifyN ZifyNat ZifyBool.
 From VLib Require Import Chunks ChunksProofs.
 From VMem Require Import StorageAccessor StorageAccessorProofs.
 From VDrv Require Import MemCopy MemCopyProofs FlushHist FlushHistProofs CopyCmd CopyCmdProofs.
@@ -226,6 +226,42 @@ Theorem driver_copy_completes_once : forall reqs evs, NoDup (map fst reqs) ->
   NoDup (rsp_ids evs) /\ incl (rsp_ids evs) (map fst reqs).
 Proof. exact completes_iff. Qed.
 Print Assumptions driver_copy_completes_once.
+
+(** The global-storage ("magic") middleware after 98dbab99: a flush per GPU
+    when needed, then the storage copy.  For every number of flushes and every
+    sequence of flush answers and ticks that does not hit the "cannot find
+    command" panic: the command completes — and the storage is read or written —
+    at most once, exactly when every flush has been answered (at once when no
+    flush is needed).  Until then the storage is untouched; afterwards it is the
+    result of the page-wise copy, for which the round trip and the frame hold. *)
+Theorem magic_copy_completes_once : forall nflush evs,
+  let s := crun (cstart_magic nflush) evs in
+  cc_crashed s = false ->
+  (cc_done s <= 1)%nat /\
+  (cc_done s = 1%nat <-> forall i, (i < nflush)%nat -> In (N.of_nat i) (rsp_ids evs)).
+Proof. exact magic_completes_iff. Qed.
+Print Assumptions magic_copy_completes_once.
+
+Theorem magic_copy_after_flush : forall lg pt addr len l nflush evs data (m : bytes),
+  pt_wf lg pt -> frames_disjoint lg pt -> split_pages lg pt addr len = Ok l ->
+  let s := crun (cstart_magic nflush) evs in
+  cc_crashed s = false ->
+  let storage := magic_storage s m (h2d data l m) in
+  ((exists i, (i < nflush)%nat /\ ~ In (N.of_nat i) (rsp_ids evs)) -> forall x, storage x = m x) /\
+  ((forall i, (i < nflush)%nat -> In (N.of_nat i) (rsp_ids evs)) ->
+     (forall buf i, i < len -> d2h storage l buf i = data i) /\
+     (forall x, (forall v, addr <= v < addr + len -> tr (look_drv lg pt) v <> x) -> storage x = m x)).
+Proof.
+  intros lg pt addr len l nflush evs data m Hw Hd Hs s Hc storage.
+  destruct (magic_completes_iff nflush evs Hc) as [Hle Hiff]. fold s in Hle, Hiff.
+  unfold storage, magic_storage. split.
+  - intros (i & Hi & Hn) x. destruct (Nat.ltb_spec 0 (cc_done s)); [|reflexivity].
+    exfalso. apply Hn. apply Hiff; [lia|exact Hi].
+  - intros Hall. apply Hiff in Hall. rewrite Hall. cbn. split.
+    + intros buf i Hi. eapply roundtrip_h2d_d2h; eauto.
+    + intros x Hx. destruct (frame_outside_range lg pt addr len l Hw Hs) as [Hf _]. apply Hf. exact Hx.
+Qed.
+Print Assumptions magic_copy_after_flush.
 
 (** Before the two repairs the statement was false: a flush response arriving
     last, and a command without requests, never completed. *)
